@@ -67,7 +67,7 @@ def rule_generator(rep: Report, rid="C11.gen") -> None:
     while changed:
         changed = False
         for m in gen_cls.methods.values():
-            if m.qualname not in allowed and m.name.startswith("_") and not m.name.startswith("__") and callers_of(m.name) and callers_of(m.name) <= allowed - {f"{GQ}.__init__"}:
+            if m.qualname not in allowed and m.name.startswith("_") and not m.name.startswith("__") and callers_of(m.name) and callers_of(m.name) <= allowed:
                 allowed.add(m.qualname)
                 changed = True
     for f in _pkg_functions():
